@@ -58,12 +58,49 @@ Theorem C40_first_obtained_final :
 Proof. exact lookup_first_obtained_final. Qed.
 Print Assumptions C40_first_obtained_final.
 
-(* arbitrary criteria (host / user / final included): the two passes.  A key obtained in the first
-   pass keeps its value; otherwise it is the value of the first block that applies in the second
-   pass GIVEN THE OPTIONS OBTAINED SO FAR (first_from threads the evolving options).
-   Exported as _partial: the full statement wanted is a closed form in terms of the config alone;
-   what is proved characterises the result through the model's intermediate option states. *)
-Theorem C40_two_pass_partial :
+(* the same fragment plus `final` (criteria that depend on the pass but not on the options): the
+   first block applying in the first pass that sets k, else the HostName default, else the first
+   block applying in the second (final) pass that sets k — two plain `find`s over the config *)
+Theorem C40_first_obtained_passes :
+  forall e cfg host raw k,
+    forallb optfree_block cfg = true ->
+    lookup_raw e cfg host = Some raw ->
+    k <> s_identityfile ->
+    dget raw k =
+    match first_obtained_in e host false cfg k with
+    | Some v => Some v
+    | None => if zlist_eqb k s_hostname then Some (VStr host) else first_obtained_in e host true cfg k
+    end.
+Proof. exact lookup_raw_first_obtained_passes. Qed.
+Print Assumptions C40_first_obtained_passes.
+
+(* ALL modelled criteria (host / user / final included), closed form over the config alone.
+   Match host / user only look at the HostName / User options, so applicability of a block is a
+   function of the config prefix: `sel` walks the blocks carrying just those two values (as set by
+   the earlier applying blocks) — no option dictionary appears in the statement.  First pass from
+   (None, None); a key obtained there is kept; otherwise HostName defaults to the name looked up;
+   otherwise the second (final) pass, started from the first pass's HostName (or the default) and
+   User, decides.  This closes the former C40_two_pass_partial. *)
+Theorem C40_two_pass :
+  forall e cfg host raw k,
+    lookup_raw e cfg host = Some raw ->
+    k <> s_identityfile ->
+    let sel1 := sel e host false false cfg None None in
+    dget raw k =
+    match sel1 k with
+    | Some v => Some v
+    | None =>
+        if zlist_eqb k s_hostname then Some (VStr host)
+        else sel e host false true cfg
+                 (match sel1 s_hostname with Some h => Some h | None => Some (VStr host) end)
+                 (sel1 s_user) k
+    end.
+Proof. exact lookup_raw_closed. Qed.
+Print Assumptions C40_two_pass.
+
+(* the earlier form of the same fact, through the model's intermediate option dictionaries
+   (first_from threads the evolving options); kept because C40_two_pass is derived from it *)
+Theorem C40_two_pass_option_states :
   forall e cfg host raw k,
     lookup_raw e cfg host = Some raw ->
     k <> s_identityfile ->
@@ -74,7 +111,7 @@ Theorem C40_two_pass_partial :
               else first_from e host false true cfg (first_pass e cfg host) k
     end.
 Proof. exact lookup_raw_two_pass. Qed.
-Print Assumptions C40_two_pass_partial.
+Print Assumptions C40_two_pass_option_states.
 
 (* one pass, any criteria: already obtained keys are kept, new ones come from the first block that
    applies (with the options so far) and sets them *)
@@ -101,6 +138,20 @@ Theorem C40_identityfile_no_dup :
     Subseq (get_list raw s_identityfile) all.
 Proof. exact identityfile_no_dup. Qed.
 Print Assumptions C40_identityfile_no_dup.
+
+(* closed form: the accumulated list is the keep-first de-duplication of the applying blocks' values,
+   first pass then final pass, applicability decided as in C40_two_pass *)
+Theorem C40_identityfile_accumulation :
+  forall e cfg host raw,
+    lookup_raw e cfg host = Some raw ->
+    let sel1 := sel e host false false cfg None None in
+    get_list raw s_identityfile =
+    dedup_extend [] (coll e host false false cfg None None ++
+                     coll e host false true cfg
+                          (match sel1 s_hostname with Some h => Some h | None => Some (VStr host) end)
+                          (sel1 s_user)).
+Proof. exact identityfile_closed. Qed.
+Print Assumptions C40_identityfile_accumulation.
 
 (* HostName defaults to the looked-up name *)
 Theorem C40_hostname_default :
@@ -194,6 +245,22 @@ Proof.
   split; [reflexivity|]. split; [eexists; split; [vm_compute; reflexivity|split; reflexivity]|].
   split; [eexists; split; [vm_compute; reflexivity|split; reflexivity]|]. split; reflexivity.
 Qed.
+
+(* Host a / HostName b ; Match host b / User u ; Match final user u / Port 5 ; Match host a / Port 6 :
+   looking up `a`: the Match host sees HostName b, the final pass sees User u *)
+Definition ex_cfg2 : list block :=
+  parsed []
+    [Blk (HHost [[97]]) [(s_hostname, [98])];
+     Blk (HMatch [Crit CHost false [98]]) [(s_user, [117])];
+     Blk (HMatch [Crit CFinal false []; Crit CUser false [117]]) [(s_port, [53])];
+     Blk (HMatch [Crit CHost false [97]]) [(s_port, [54])]].
+
+Example C40_example_two_pass :
+  exists raw, lookup_raw ex_env ex_cfg2 [97] = Some raw /\
+              dget raw s_user = Some (VStr [117]) /\ dget raw s_port = Some (VStr [53]) /\
+              sel ex_env [97] false false ex_cfg2 None None s_port = None /\
+              forallb optfree_block ex_cfg2 = false.
+Proof. eexists. split; [vm_compute; reflexivity|]. repeat split; reflexivity. Qed.
 
 (* ~/.ssh/%h-%p under identityfile (where %p is not allowed) *)
 Example C40_example_tokens :
